@@ -132,7 +132,8 @@ func init() {
 		[]string{"permutations of more than two rows; discounts/charges with explicit bases and explicit-quantity rate charges; quick tier: line and document discounts only (charges, advances in thorough)"})
 	c17.Opaque = map[string]string{"(num.Amount).String": "<amount>"}
 	c17.Stubs = append(c17.Stubs, "num.Amount.String on a symbolic amount (only used to build the mismatch message of Invert): placeholder text", "cbc.NormalizeCode regexps: native regexp on concrete strings")
-	c17.Stages = append(c17.Stages, stage{Name: "negation-and-included-tax", Harness: `^H_C17_(Invert|RemoveIncluded)`, Subst: numSummaries, Needs: []string{"L0"}, ThoroughOnly: true, BudgetS: 100})
+	c17.Stages = append(c17.Stages, stage{Name: "negation", Harness: `^H_C17_Invert`, Subst: numSummaries, Needs: []string{"L0"}, BudgetS: 300})
+	c17.Stages = append(c17.Stages, stage{Name: "included-tax", Harness: `^H_C17_RemoveIncluded`, Subst: numSummaries, Needs: []string{"L0"}, ThoroughOnly: true, BudgetS: 100})
 	reg(c17)
 }
 
